@@ -23,6 +23,65 @@ type Race struct {
 	Key   string // first two frames of the first stack
 	Text  string // abbreviated report
 	Count int
+	Marks []string // ids of the Mark scopes that were open in the child when the report was first printed
+}
+
+// MarkPrefix starts a scope line on the child's stderr: "RACEKIT-MARK +id"
+// opens the scope id, "RACEKIT-MARK -id" closes it.  A child that runs its
+// scenarios one after another (or a few at a time) brackets each of them with
+// Mark calls; every race report is then attributed to the scenarios that were
+// running when the detector printed it (Race.Marks), and a child that died
+// to the ones it died in (OpenMarks).
+const MarkPrefix = "RACEKIT-MARK "
+
+// Mark writes a scope line (one unbuffered write to stderr, the stream the
+// race detector writes its reports to).
+func Mark(open bool, id string) {
+	sign := "-"
+	if open {
+		sign = "+"
+	}
+	os.Stderr.WriteString("\n" + MarkPrefix + sign + id + "\n")
+}
+
+// markState tracks the open scopes while stderr is read front to back.
+type markState struct{ open []string }
+
+func (m *markState) feed(text string) {
+	for {
+		i := strings.Index(text, MarkPrefix)
+		if i < 0 {
+			return
+		}
+		text = text[i+len(MarkPrefix):]
+		line := text
+		if j := strings.IndexByte(line, '\n'); j >= 0 {
+			line = line[:j]
+		}
+		line = strings.TrimSpace(line)
+		if len(line) < 2 {
+			continue
+		}
+		id := line[1:]
+		switch line[0] {
+		case '+':
+			m.open = append(m.open, id)
+		case '-':
+			for k, o := range m.open {
+				if o == id {
+					m.open = append(append([]string{}, m.open[:k]...), m.open[k+1:]...)
+					break
+				}
+			}
+		}
+	}
+}
+
+// OpenMarks lists the scopes still open at the end of the child's stderr.
+func OpenMarks(stderr string) []string {
+	var m markState
+	m.feed(stderr)
+	return m.open
 }
 
 // ChildResult is what the child prints on its last stdout line after "CHILD ".
@@ -90,9 +149,17 @@ func (c *ChildResult) Merge(rep *vh.Report, class string) {
 // race reports, and a non-empty problem string when the child did not finish
 // properly ("TIMEOUT", crash text).
 func RunChild(args []string, env []string, timeout time.Duration) (*ChildResult, []Race, string) {
+	res, races, problem, _ := RunChildMarked(args, env, timeout)
+	return res, races, problem
+}
+
+// RunChildMarked is RunChild for a child that uses Mark: it also returns the
+// scopes that were open when the child's stderr ended (of interest when the
+// child crashed or was killed).
+func RunChildMarked(args []string, env []string, timeout time.Duration) (*ChildResult, []Race, string, []string) {
 	exe, err := os.Executable()
 	if err != nil {
-		return nil, nil, "cannot find own executable: " + err.Error()
+		return nil, nil, "cannot find own executable: " + err.Error(), nil
 	}
 	ctx, cancel := context.WithTimeout(context.Background(), timeout)
 	defer cancel()
@@ -126,14 +193,18 @@ func RunChild(args []string, env []string, timeout time.Duration) (*ChildResult,
 		problem = fmt.Sprintf("child ended without a result (%v); stderr tail: %s", runErr, tail)
 	}
 	// exit status 66 = "races were reported": expected, not a problem
-	return res, races, problem
+	return res, races, problem, OpenMarks(stderr.String())
 }
 
 // ParseRaces extracts the distinct "WARNING: DATA RACE" reports.
 func ParseRaces(stderr string) []Race {
 	byKey := map[string]*Race{}
 	blocks := strings.Split(stderr, "WARNING: DATA RACE")
+	var marks markState
+	marks.feed(blocks[0])
 	for _, b := range blocks[1:] {
+		openNow := append([]string{}, marks.open...)
+		marks.feed(b)
 		if i := strings.Index(b, "=================="); i >= 0 {
 			b = b[:i]
 		}
@@ -183,7 +254,7 @@ func ParseRaces(stderr string) []Race {
 		if r, ok := byKey[key]; ok {
 			r.Count++
 		} else {
-			byKey[key] = &Race{Key: key, Text: text, Count: 1}
+			byKey[key] = &Race{Key: key, Text: text, Count: 1, Marks: openNow}
 		}
 	}
 	var out []Race
